@@ -96,8 +96,8 @@ func (c *chessCtx) disc(prop, kind, sig string, o *Obs, fen string, detail inter
 	if o != nil {
 		d.Root = o.Root
 		d.Path = o.Path
-		if o.raw != "" {
-			d.Replay = json.RawMessage(o.raw)
+		if o.raw != "" && o.Root >= 1 && o.Root <= len(c.roots) {
+			d.Replay = mustJSON(map[string]interface{}{"obs": json.RawMessage(o.raw), "root": c.roots[o.Root-1]})
 		}
 	}
 	c.res.disc(d)
